@@ -22,7 +22,67 @@ def plan(tier, seed):
                               part=p, parts=parts, reverse=rev, seed=[seed, 11, p]))
             specs.append(dict(name="classes-%s-%d" % ("rev" if rev else "fwd", p), mode="interp", what="classes", Nmax=Nmax, Wmax=Wmax,
                               part=p, parts=parts, reverse=rev))
+    # the same maps called concurrently from several threads of one process (a caller fitting several models in a thread pool)
+    for p in range(1 if tier == "quick" else 3):
+        specs.append(dict(name="threads-%d" % p, mode="interp", what="threads", seed=[seed, 1111, p], rounds=1500 if tier == "quick" else 6000))
     return specs
+
+
+def run_threads(spec, res):
+    """4 threads, each with its own matrices of ONE common size, hammer compress / reinflate / index maps with a very short
+    interpreter switch interval; every result is compared with that thread's own expected value."""
+    import sys
+    import threading
+    from fast_ticc import matrix_compression as mc
+    from fast_ticc.admm import unique_values as uv
+    rng = np.random.default_rng(spec["seed"])
+    n = int(rng.choice([6, 12, 40]))
+    N, W = [(2, 3), (3, 4), (4, 10)][[6, 12, 40].index(n)]
+    m = n * (n + 1) // 2
+    old = sys.getswitchinterval()
+    sys.setswitchinterval(5e-6)
+    state = dict(inflight=0, max_inflight=0, bad=[], calls=0)
+    lock = threading.Lock()
+
+    def worker(tid):
+        r = np.random.default_rng(list(spec["seed"]) + [tid])
+        vals = r.permutation(m).astype(np.float64) + 0.25 + 1000.0 * tid
+        M = tz.full_from_upper(n, vals)
+        for it in range(spec["rounds"]):
+            with lock:
+                state["inflight"] += 1
+                state["max_inflight"] = max(state["max_inflight"], state["inflight"])
+            try:
+                back = mc.reinflate_matrix(vals)
+                comp = mc.compress_matrix(M)
+                idx = uv._compressed_index(it % n, n - 1, n)
+            finally:
+                with lock:
+                    state["inflight"] -= 1
+                    state["calls"] += 1
+            if back.shape != (n, n) or not np.array_equal(back, M):
+                state["bad"].append("thread %d, call %d: reinflate_matrix returned a matrix that is not this thread's (n=%d)" % (tid, it, n))
+                return
+            if comp.shape != (m,) or not np.array_equal(comp, vals):
+                state["bad"].append("thread %d, call %d: compress_matrix returned a vector that is not this thread's (n=%d)" % (tid, it, n))
+                return
+            lo, hi = sorted((it % n, n - 1))
+            if idx != lo * n - lo * (lo - 1) // 2 + (hi - lo):
+                state["bad"].append("thread %d, call %d: _compressed_index wrong under concurrency" % (tid, it))
+                return
+    try:
+        ths = [threading.Thread(target=worker, args=(t,)) for t in range(4)]
+        for t in ths:
+            t.start()
+        for t in ths:
+            t.join()
+    finally:
+        sys.setswitchinterval(old)
+    res.count("concurrent_map_calls", state["calls"])
+    res.maxi("max_calls_in_flight", state["max_inflight"])
+    for b in state["bad"][:2]:
+        res.violation(b, dict(what="threads", seed=spec["seed"], rounds=spec["rounds"]))
+    res.nontriv("threads-%d" % n)
 
 
 def check_size(res, n, rng):
@@ -103,6 +163,9 @@ def check_classes(res, N, W):
 
 
 def run_shard(spec, res):
+    if spec["what"] == "threads":
+        run_threads(spec, res)
+        return
     if spec["what"] == "compress":
         rng = np.random.default_rng(spec["seed"])
         sizes = [n for n in range(1, spec["nmax"] + 1)]
@@ -124,6 +187,9 @@ def run_shard(spec, res):
 
 
 def replay(case, res):
+    if case["what"] == "threads":
+        run_threads(dict(seed=case["seed"], rounds=case["rounds"]), res)
+        return
     if case["what"] == "compress":
         check_size(res, case["n"], np.random.default_rng(0))
     else:
@@ -138,4 +204,6 @@ def finalize(merged, tier):
     if merged["evaluations"] != want:
         out["inconclusive"].append("enumeration incomplete: %d of %d" % (merged["evaluations"], want))
     out["space"] = "n<=%d; N<=%d, W<=%d" % (nmax, Nmax, Wmax)
+    if merged["counters"].get("max_max_calls_in_flight", merged["counters"].get("max_calls_in_flight", 0)) < 2:
+        out["inconclusive"].append("the concurrent shard never had two calls of the maps in flight at once")
     return out
